@@ -209,9 +209,6 @@ func genVarInvalid(r *rand.Rand) c08In {
 			// F-C08-invalid-accepted: these validators return a typed zero value for any input, so an
 			// ill-typed substitution is accepted instead of being invalid at computed-value time.
 			skip = skip || acceptsAnything[n] && on("invalid-accepted")
-			// image-orientation is inherited (Images 3 §6.2) but webrender's Inherited set lacks it
-			// (a defaulting matter, property C04): its invalid-at-computed-value-time value is the initial one.
-			skip = skip || n == "image-orientation" && on("image-orientation-not-inherited")
 		}
 		if skip {
 			continue
